@@ -7,6 +7,7 @@ import (
 	"bytes"
 	"encoding/json"
 	"fmt"
+	"strconv"
 
 	"github.com/spyzhov/ajson"
 	// Using gopkg.in/yaml.v3 instead of sigs.k8s.io/yaml on purpose.
@@ -103,7 +104,14 @@ func Set(obj map[string]interface{}, expression string, value interface{}) (int,
 		case string:
 			err = node.SetString(typedValue)
 		case int:
-			err = node.SetNumeric(float64(typedValue))
+			// Build the node from the decimal text, because converting to
+			// float64 loses precision for integers beyond 2^53.
+			var intValue *ajson.Node
+			intValue, err = ajson.Unmarshal([]byte(strconv.Itoa(typedValue)))
+			if err != nil {
+				break
+			}
+			err = node.SetNode(intValue)
 		case float64:
 			err = node.SetNumeric(typedValue)
 		case []interface{}:
